@@ -34,6 +34,7 @@ const (
 	LocCell LocKind = iota // a local cell (non-escaping alloc, or an in/out pointer parameter)
 	LocObj                 // leaves [Off,Off+N) of the heap object Ref of root type Root
 	LocElem                // leaves [Off,Off+N) of element Idx of backing array Base, element type ElemT
+	LocArr                 // a whole array object stored as row Base of the element heap (N = array length)
 )
 
 type Loc struct {
